@@ -22,7 +22,8 @@ LEAN_MODULES = ['ThermoVerif.Props.C04']
 RULE = ('a case is one feed (1–5 volatile chemicals of one family: C1–C4 alcohols, C6–C8 alkanes/aromatics, or a '
         'water/organics set under the ideal package; every mole fraction ≥ 0.02; optionally ≤5 % non-condensable O2 '
         'and/or non-volatile solute) followed by 3–8 flashes on the same stream with specification pairs drawn from '
-        'TP, TV, TH, TS, PV, PH, PS, Tx, Ty, Px, Py (T 280–450 K, P 2e4–1e6 Pa, V in (0.02, 0.98), H/S of a state '
+        'TP, TV, TH, TS, PV, PH, PS, Tx, Ty, Px, Py, interleaved with in-place rescalings of the same stream followed by the same '
+        'flash again (k incl. powers of two), over 9 packages two pairs of which reuse the ID `Solvent` for different chemicals (T 280–450 K, P 2e4–1e6 Pa, V in (0.02, 0.98), H/S of a state '
         'with V in (0.02, 0.98)), later flashes re-specify the state just reached through another pair, plus a '
         'k·feed replay; non-trivial = at least one flash ended with two phases after a fixed-point solve; '
         'distinct = distinct (package, chemicals, rounded composition, pair sequence)')
@@ -60,6 +61,12 @@ FAMILIES = [
     ('mixI', ['Water', 'Ethanol', 'Acetone', 'Hexane', 'Toluene'], 'ideal'),
     ('alcI', ['Methanol', 'Ethanol', '1-Propanol', '1-Butanol'], 'ideal'),
     ('hcI', ['Hexane', 'Heptane', 'Octane', 'Benzene', 'Toluene'], 'ideal'),
+    # two packages (×2 kinds) whose chemical 'Solvent' is a DIFFERENT chemical under the same ID: anything the library
+    # memoises per ID (instead of per Chemical object / per package) shows when they are flashed one after the other
+    ('solvA', [('Solvent', 'Hexane'), 'Heptane'], 'family'),
+    ('solvB', [('Solvent', 'Octane'), 'Heptane'], 'family'),
+    ('solvAI', [('Solvent', 'Hexane'), 'Heptane'], 'ideal'),
+    ('solvBI', [('Solvent', 'Octane'), 'Heptane'], 'ideal'),
 ]
 
 
@@ -77,7 +84,9 @@ def setup():
         O2 = tmo.Chemical('O2', phase='g')
         G = tmo.Chemical('Glucose', phase='l', default=True)
         G.N_solutes = 1            # a solute that dilutes the liquid (default 0 would make it invisible to VLE)
-        chems = tmo.Chemicals(ids + [O2, G], cache=True)
+        objs = [tmo.Chemical(i[0], search_ID=i[1]) if isinstance(i, tuple) else i for i in ids]
+        ids = [i[0] if isinstance(i, tuple) else i for i in ids]
+        chems = tmo.Chemicals(objs + [O2, G], cache=True)
         if kind == 'ideal':
             th = tmo.Thermo(chems, Gamma=tmo.equilibrium.IdealActivityCoefficients, cache=False)
         else:
@@ -261,6 +270,7 @@ class Run:
         self.s = None; self.th = None; self.kind = None; self.ids = None
         self.last = None          # (snapshot before, pair, resolved a, resolved b) of the last vle op
         self.two_phase_solves = 0
+        self.last_products = None
         self.key = []
 
     def emit(self, line, ans):
@@ -303,6 +313,8 @@ class Run:
         else: a = float(ta)
         if tb == '@':
             b = cur(kb)
+        elif tb[0] == '*' and kb in ('P', 'V', 'H', 'S'):
+            b = cur(kb) * float(tb[1:])
         elif tb.startswith('v'):
             # H or S of the state with vaporised fraction `frac` at the specified T or P
             frac = float(tb[1:])
@@ -369,6 +381,7 @@ class Run:
         finally:
             REC = None
         self.last = (snap, pair, a, b)
+        self.last_products = None if err is not None else (arr(s.imol['l']).copy(), arr(s.imol['g']).copy(), float(s.T), float(s.P))
         self.key.append(pair)
         self.tags += [f'pair:{pair}', f'n:{ncase}', f'pkg:{self.name}']
         T1, P1 = float(s.T), float(s.P)
@@ -513,6 +526,17 @@ class Run:
                     # IQ_interpolation returned the bracket end T_bubble as a "lucky guess": the vapour left after the
                     # uniform condensation step has the composition of the whole feed
                     sfx = ':stale-split-after-lucky-guess'
+                elif ka == 'P' and ncase == 'many' and Fl > 0:
+                    # set_PS (like set_PH) takes 0.9·T_bubble + 0.1·Tmin as the lower temperature bracket when
+                    # non-condensable gas is present; if the equilibrium state at the returned T still has more entropy
+                    # than specified, the solution lies below the bracket: the code stops at the bracket end and condenses
+                    # a uniform fraction of the vapour (exact for H, not for S)
+                    try:
+                        c = restore(th, snap)
+                        c.vle(T=T1, P=a)
+                        if float(c.S) > b: sfx = ':gas-below-temperature-bracket'
+                    except Exception:
+                        pass
                 self.fail(f'S-not-reproduced:{pair}:{ncase}{sfx}', f'specified S={b!r}, stream.S={float(s.S)!r} ({r:.3g} kJ/K/kg, allowed {tol:.3g}); T={T1}, P={P1}')
 
         if ncase != 'many':
@@ -537,11 +561,9 @@ class Run:
         chems = [th.chemicals.tuple[i] for i in idx]
         if pair == 'TP' and not inert:
             Ps = np.array([c.Psat(a) for c in chems], float)
-            if self.kind == 'ideal':
-                Pbub = float((z * Ps).sum()); Pdew = float(1. / (z / Ps).sum())
-            else:
-                Pbub = float(tmo.equilibrium.BubblePoint(chems, th).solve_Py(z, a)[0])
-                Pdew = float(tmo.equilibrium.DewPoint(chems, th).solve_Px(z, a)[0])
+            # bubble / dew pressure from the CURRENT package's own chemical objects (chemical.Psat, a freshly built
+            # thermo.Gamma), never from the library's cached BubblePoint / DewPoint objects; φ = pcf = 1 in these packages
+            Pbub, Pdew = own_bubble_dew(th, chems, z, Ps, a)
             if b >= Pbub * (1 + 1e-7) and g1.sum() != 0:
                 self.fail('phase-boundary:expected-liquid', f'P={b} ≥ bubble pressure {Pbub} at T={a} but vapour flow {g1.sum()} of {mol.sum()}')
             elif b <= Pdew * (1 - 1e-7) and l1.sum() != 0:
@@ -627,8 +649,68 @@ class Run:
         self.tags.append('scale')
         if not (280 <= T1 <= 450 and 2e4 <= P1 <= 1e6) or Ftot == 0: return
         dev = max(np.abs(lk / k - l1).max(), np.abs(gk / k - g1).max()) / Ftot
-        if dev > 2e-4 or abs(Tk - T1) > 5e-3 or abs(Pk - P1) > 1e-5 * P1 + 2.:
+        allowed = 2e-4
+        if dev > allowed: allowed += 2 * self.resolution_spread(l1, g1, T1, P1, ka)
+        if dev > allowed or abs(Tk - T1) > 5e-3 or abs(Pk - P1) > 1e-5 * P1 + 2.:
             self.fail(f'scaling:{pair}', f'{pair} flash of k·feed (k={k}): products/k differ from products of the feed by {dev:.3g} of the total flow; T {T1} vs {Tk}, P {P1} vs {Pk}')
+
+
+def _resolution_spread(self, l1, g1, T1, P1, ka):
+    """How far the split moves (fraction of the total flow) when the SOLVED one of T, P moves by the solver's stated
+    resolution (P_tol = 1 Pa; 1e-3 K covers T_tol and the H_hat/S_hat tolerances): two real T,P flashes of the same
+    material.  Large only for nearly pure volatile material next to inert gas / solute, where V jumps within a few Pa."""
+    out = []
+    for sgn in (-1, 1):
+        c = restore(self.th, (l1, g1, T1, P1))
+        try:
+            if ka == 'T': c.vle(T=T1, P=P1 + sgn * float(vm.VLE.P_tol))
+            else: c.vle(T=T1 + sgn * 1e-3, P=P1)
+        except Exception:
+            return 0.
+        out.append(arr(c.imol['g']))
+    self.tags.append('resolution-spread')
+    return float(np.abs(out[0] - out[1]).max() / (l1 + g1).sum())
+Run.resolution_spread = _resolution_spread
+
+
+def _rescale(self, t):
+    """multiply every flow of THE SAME stream by k (the VLE object and whatever it remembers stay)"""
+    self.s.scale(float(t[1]))
+    self.tags.append('rescale')
+    self.last = None
+Run.rescale = _rescale
+
+
+def _revle(self, t):
+    """history on one stream: after a flash, multiply every flow of the same stream by k and flash it again at the same
+    specification (H, S scaled with the flows); the second result must be k times the first, and every oracle of a
+    flash is evaluated on it as on any other call"""
+    k = float(t[1])
+    if self.last is None or self.last_products is None: return
+    snap, pair, a, b = self.last
+    ka, kb = PAIR_KW[pair]
+    if kb in ('x', 'y'): return
+    l1, g1, T1, P1 = self.last_products
+    self.s.scale(k)
+    bb = b * k if kb in ('H', 'S') else b
+    nf = len(self.failures)
+    self.last_products = None
+    self.vle(['vle', pair, repr(float(a)), repr(float(bb))])
+    self.tags.append('revle')
+    if self.last_products is None: return
+    lk, gk, Tk, Pk = self.last_products
+    Ftot = (l1 + g1).sum()
+    if not (280 <= T1 <= 450 and 2e4 <= P1 <= 1e6) or Ftot == 0: return
+    if kb == 'S' and any(c.ID in S_NOISY and (l1[i] + g1[i]) > 0 for i, c in enumerate(self.th.chemicals.tuple)):
+        return
+    dev = max(np.abs(lk / k - l1).max(), np.abs(gk / k - g1).max()) / Ftot
+    allowed = 2e-4
+    if dev > allowed: allowed += 2 * self.resolution_spread(l1, g1, T1, P1, ka)
+    if dev > allowed or abs(Tk - T1) > 5e-3 or abs(Pk - P1) > 1e-5 * P1 + 2.:
+        self.fail(f'scaling-history:{pair}', f'{pair} flash, every flow of the same stream multiplied by k={k}, same {pair} flash again: '
+                  f'products/k differ from the first products by {dev:.3g} of the total flow; T {T1} vs {Tk}, P {P1} vs {Pk}; '
+                  f'vapour before {g1}, after/k {gk / k}')
+Run.revle = _revle
 
 
 def Fh_eff(s, th):
@@ -647,6 +729,8 @@ def run_ops(ops):
         elif r.s is None: continue
         elif t[0] == 'vle': r.vle(t)
         elif t[0] == 'scale': r.scale(t)
+        elif t[0] == 'rescale': r.rescale(t)
+        elif t[0] == 'revle': r.revle(t)
         else: raise ValueError('unknown op ' + line)
     return r
 
@@ -716,6 +800,7 @@ def model_tags(line):
 def gen_feed(rng, ti=None, nvol=None, inert=None):
     ti = rng.randrange(len(FAMILIES)) if ti is None else ti
     _, ids, kind = FAMILIES[ti]
+    ids = [i[0] if isinstance(i, tuple) else i for i in ids]
     k = nvol if nvol is not None else rng.choice([1, 2, 2, 3, 3, 4, 5 if len(ids) >= 5 else 4])
     k = min(k, len(ids))
     sub = rng.sample(ids, k)
@@ -753,7 +838,10 @@ def gen_case(rng, ti=None):
             f'vle TH @ v{round(rng.uniform(0.03, 0.97), 3)}', f'vle TS @ v{round(rng.uniform(0.03, 0.97), 3)}',
             f'vle TV @ {round(rng.uniform(0.03, 0.97), 4)}', f'vle PV @ {round(rng.uniform(0.03, 0.97), 4)}',
             f'vle PV {round(P * rng.uniform(0.7, 1.4), 1)} {round(rng.uniform(0.03, 0.97), 4)}']
-    nops = rng.randrange(3, 8)
+    if rng.random() < 0.5:
+        ops.append('vle TP @ @')
+        ops.append(f'revle {rng.choice([2.0, 0.25, 3.0, 10.0, 1.5])}')
+    nops = rng.randrange(3, 7)
     for _ in range(nops):
         r = rng.random()
         if r < 0.12:
@@ -766,8 +854,15 @@ def gen_case(rng, ti=None):
             ops.append(rng.choice(['vle Tx +2 @', 'vle Ty +2 @', 'vle Px *1.05 @', 'vle Py *1.05 @']))
         else:
             ops.append(rng.choice(menu))
-        if rng.random() < 0.25:
+        r2 = rng.random()
+        if r2 < 0.2:
             ops.append(f'scale {rng.choice([2.0, 0.5, 3.0, 10.0, 0.1, 7.0])}')
+        elif r2 < 0.5:
+            # history on the same stream: scale (powers of two keep the mole fractions bit-identical), flash again
+            ops.append(f'revle {rng.choice([2.0, 0.25, 3.0, 10.0, 1.5, 0.5, 4.0, 0.1])}')
+            if rng.random() < 0.3: ops.append(f'revle {rng.choice([2.0, 0.5, 8.0, 1.5])}')
+        elif r2 < 0.58:
+            ops.append(f'rescale {rng.choice([2.0, 0.25, 3.0, 1.5])}')
     return Case(ops, {})
 
 
@@ -780,6 +875,18 @@ def generate(rng, tier, index, nworkers):
 
 def corpus():
     return [
+        # history on one stream: T,P flash – scale – the same T,P flash (z bit-identical for powers of two)
+        Case(['feed 1 298.15 101325.0 l:Hexane=3.0,Heptane=4.0,Octane=3.0', 'vle TP 368.0 101325.0', 'revle 2.0', 'revle 0.25',
+              'revle 3.0', 'vle PV 101325.0 0.4', 'vle TP @ @', 'revle 10.0', 'rescale 1.5', 'vle TP @ @']),
+        Case(['feed 4 298.15 101325.0 l:Hexane=3.0,Heptane=4.0,Octane=3.0', 'vle TP 368.0 101325.0', 'revle 2.0', 'revle 0.25',
+              'vle PH @ @', 'revle 2.0', 'vle TV @ @', 'revle 0.5']),
+        # the same ID for two different chemicals, one package after the other, both orders, both kinds
+        Case(['feed 5 298.15 101325.0 l:Solvent=5.0,Heptane=5.0', 'vle PV 101325.0 0.5', 'vle TP @ @', 'vle TP @ *1.3', 'vle TP @ *0.6']),
+        Case(['feed 6 298.15 101325.0 l:Solvent=5.0,Heptane=5.0', 'vle PV 101325.0 0.5', 'vle TP @ @', 'vle TP @ *1.3', 'vle TP @ *0.6']),
+        Case(['feed 5 298.15 101325.0 l:Solvent=5.0,Heptane=5.0', 'vle PV 101325.0 0.5', 'vle TP @ @']),
+        Case(['feed 7 298.15 101325.0 l:Solvent=5.0,Heptane=5.0', 'vle PV 101325.0 0.5', 'vle TP @ @', 'vle TV @ @']),
+        Case(['feed 8 298.15 101325.0 l:Solvent=5.0,Heptane=5.0', 'vle PV 101325.0 0.5', 'vle TP @ @', 'vle TV @ @']),
+        Case(['feed 7 298.15 101325.0 l:Solvent=5.0,Heptane=5.0', 'vle PV 101325.0 0.5', 'vle TP @ @']),
         # DESIGN.md §8 #16: single chemical, T and V specified
         Case(['feed 0 300.0 101325.0 l:Ethanol=10.0', 'vle TV 350.0 0.4']),
         # single chemical, T and H / T and S specified
@@ -807,3 +914,21 @@ def safe_tsat(chem, P):
         return float(chem.Tsat(P, check_validity=False))
     except Exception:
         return float('nan')
+
+
+def own_bubble_dew(th, chems, z, Ps, T):
+    """Modified-Raoult bubble and dew pressure: P_b = Σ z γ(z) Psat;  P_d = 1 / Σ z/(γ(x) Psat) with x the dew liquid
+    (fixed point on x)."""
+    gamma = th.Gamma(tuple(chems))
+    g = np.asarray(gamma(z, T), float) * np.ones(len(z))
+    Pbub = float((z * g * Ps).sum())
+    x = z / Ps; x = x / x.sum()
+    Pdew = float(1. / (z / Ps).sum())
+    for _ in range(200):
+        g = np.asarray(gamma(x, T), float) * np.ones(len(z))
+        Pnew = float(1. / (z / (g * Ps)).sum())
+        xn = z * Pnew / (g * Ps); xn = xn / xn.sum()
+        done = abs(Pnew - Pdew) <= 1e-12 * Pnew and np.abs(xn - x).max() < 1e-13
+        Pdew, x = Pnew, xn
+        if done: break
+    return Pbub, Pdew
